@@ -1,4 +1,27 @@
-(* placeholder so that the pipeline can be exercised; replaced by the real theorems *)
-From SV Require Import Names Rep.
-Theorem C08_placeholder : True. Proof. exact I. Qed.
-Print Assumptions C08_placeholder.
+(* C08 -- queries and derived-complex constructors never modify their inputs.
+   Theorem statements only; proofs in WorldProofs.v.  In the model every query is a function of
+   the world that returns the world unchanged, and a copy-like constructor binds only its result
+   variable and writes only heap cells of the new object's owner.  Whether the *code* behaves like
+   that (in-place numpy updates, shared dictionaries) is what the correspondence and the
+   before/after oracle check on every run (tested_only: the numpy aliasing of boundary matrices). *)
+From Coq Require Import String ZArith Bool Arith List.
+From SV Require Import Names NamesFacts ListFacts Rep Fresh Complex Atomic RepInv Reach Homology Filtration Gen World WorldProofs.
+
+(* any read-only query -- Betti numbers, normal forms, cycle bases, boundaries, Euler
+   characteristic and integral, comparisons, ... -- returns the world it was given *)
+Theorem C08_query_leaves_world : forall w v q w' o, exec w (CQuery v q) = (w', o) -> w' = w.
+Proof. exact query_leaves_world. Qed.
+Print Assumptions C08_query_leaves_world.
+
+(* copy() of a complex or a filtration: every other variable is bound to what it was bound to *)
+Theorem C08_copy_binds_only_its_result :
+  forall w x v orders w' o y, exec w (CCopy x v orders) = (w', o) -> y <> x -> vget (w_vars w') y = vget (w_vars w) y.
+Proof. exact copy_binds_only_result. Qed.
+Print Assumptions C08_copy_binds_only_its_result.
+
+(* ... and the attribute dictionaries that existed before are not written *)
+Theorem C08_copy_writes_only_new_cells :
+  forall hp src uid hp' r' x, copy_new hp src uid = (hp', r', x) ->
+  forall h, fst h <> uid -> heap_get hp' h = heap_get hp h.
+Proof. intros hp src uid hp' r' x H. now destruct (copy_new_fresh _ _ _ _ _ _ H) as (_ & _ & ?). Qed.
+Print Assumptions C08_copy_writes_only_new_cells.
